@@ -329,4 +329,10 @@ def r_base_store(ctx):
                           f"{[e.describe()[:120] for e in r.emissions]}", first_line(proj, "NamedUIDObject"))
 
 
-RULES = [r_task_oblig, r_horizon, r_drain, r_base_store]
+def _declared_reaches_solver(ctx):
+    from rules import resources as _r
+    _r.r_declared_reaches_solver(ctx)
+
+
+RULES = [r_task_oblig, r_horizon, r_drain, r_base_store, _declared_reaches_solver,
+         lambda ctx: __import__("rules.validation", fromlist=["x"]).r_dup_name(ctx, only=('add_task',))]
